@@ -10,9 +10,15 @@
 (*   [k |-> "yloc"]               yield n                                                       *)
 (*   [k |-> "loop", n, body]      for _ in range(n): body                                       *)
 (*   [k |-> "tryf", body, fin]    try: body finally: fin                                        *)
-(*   [k |-> "ret", v]             return v                                                      *)
+(*   [k |-> "ret", v]             return v                            (v an int)                *)
+(*   [k |-> "retv", val]          return val                          (val any value: a tuple of *)
+(*                                any shape is ONE value; it is what StopIteration carries and   *)
+(*                                what a delegating `yield from` evaluates to, unchanged per hop) *)
 (*   [k |-> "raise"]              raise KeyError                                                *)
-(*   [k |-> "yf", b]              r = yield from <new generator with body Bodies[b]> ; record <<"yf", r>> *)
+(*   [k |-> "yf", b, then]        then = "":       r = yield from <new generator with body Bodies[b]> ; record <<"yf", r>> *)
+(*                                then = "ret":    the same, followed by  return r               *)
+(*                                then = "unpack": q, r = yield from ... ; record <<"un", [q, r]>> (TypeError / ValueError *)
+(*                                                 from the unpacking if the value is no sequence / not of length 2)      *)
 (*   [k |-> "inl", body]          specification-only: the body of a sub-generator written in place*)
 (*                                (used to STATE that yield from is transparent, never rendered) *)
 (* The driver performs next(g) / g.send(v) on NTop live instances. Every call is one history     *)
@@ -31,9 +37,12 @@ CONSTANTS Bodies,      \* sequence of body templates (sequences of statements)
           LockChoices, \* the assignments <<delegating template, its in-place form>> (design check only)
           MaxOpsOne    \* history length of the single-instance design check
 
-NoneV  == [t |-> "none", i |-> 0, s |-> ""]
-IntV(n) == [t |-> "int", i |-> n, s |-> ""]
-StrV(x) == [t |-> "str", i |-> 0, s |-> x]
+\* values: None, ints, strings and -- as return values -- tuples and lists of values (l = the items)
+NoneV  == [t |-> "none", i |-> 0, s |-> "", l |-> <<>>]
+IntV(n) == [t |-> "int", i |-> n, s |-> "", l |-> <<>>]
+StrV(x) == [t |-> "str", i |-> 0, s |-> x, l |-> <<>>]
+TupleV(items) == [t |-> "tuple", i |-> 0, s |-> "", l |-> items]
+ListV(items)  == [t |-> "list", i |-> 0, s |-> "", l |-> items]
 
 GTop(s) == s[Len(s)]
 GPop(s) == SubSeq(s, 1, Len(s) - 1)
@@ -48,7 +57,7 @@ ORunning  == [k |-> "running", v |-> NoneV, e |-> ""]
 Ev(k, v)  == [k |-> k, v |-> v]
 
 NewGen(b) == [ks |-> << SeqF(Bodies[b]) >>, comp |-> Norm, st |-> "created", how |-> "",
-              inbox |-> NoneV, sub |-> 0, par |-> 0, loc |-> 0]
+              inbox |-> NoneV, sub |-> 0, par |-> 0, loc |-> 0, ythen |-> ""]
 
 VARIABLES gens,      \* generator instances; 1..NTop are the driver's, the others are yield-from children
           top,       \* templates of the top-level instances
@@ -76,6 +85,17 @@ PreOf(G, g) == IF G[g].st = "done" THEN "done-" \o G[g].how ELSE G[g].st
 St(G, a, h, l) == [gens |-> G, active |-> a, hist |-> h, log |-> l]
 Cur == St(gens, active, hist, log)
 Becomes(s) == gens' = s.gens /\ active' = s.active /\ hist' = s.hist /\ log' = s.log /\ UNCHANGED top
+
+\* what happens with the value v of a completed `yield from` expression (see the statement "yf")
+UnpackOK(v) == v.t \in {"tuple", "list"} /\ Len(v.l) = 2
+AfterYFComp(v, then) ==
+   IF then = "ret" THEN [t |-> "ret", v |-> v]
+   ELSE IF then = "unpack" /\ ~UnpackOK(v)
+        THEN [t |-> "exc", v |-> StrV(IF v.t \in {"tuple", "list"} THEN "ValueError" ELSE "TypeError")]
+   ELSE Norm
+AfterYFLog(lg, v, then) ==
+   IF then = "unpack" THEN (IF UnpackOK(v) THEN Append(lg, Ev("un", ListV(v.l))) ELSE lg)
+   ELSE Append(lg, Ev("yf", v))
 
 \* the driver starts next(g) (v = NoneV) or g.send(v)
 StartF(s, g, v) ==
@@ -108,7 +128,8 @@ StepF(s) ==
      IF p = 0 THEN EndF(s, Gd, r)
      ELSE \* deliver to the delegating parent: the value of the yield-from expression, or the exception
           IF g.comp.t = "exc" THEN Go([Gd EXCEPT ![p].sub = 0, ![p].comp = g.comp])
-          ELSE GoLog([Gd EXCEPT ![p].sub = 0], Ev("yf", g.comp.v))
+          ELSE [s EXCEPT !.gens = [Gd EXCEPT ![p].sub = 0, ![p].comp = AfterYFComp(g.comp.v, G[p].ythen)],
+                         !.log = AfterYFLog(s.log, g.comp.v, G[p].ythen)]
   ELSE LET f == GTop(g.ks) IN
     IF g.comp.t # "norm" THEN
        \* abrupt completion (return or exception in flight): unwind one frame
@@ -117,7 +138,8 @@ StepF(s) ==
           Go([G EXCEPT ![c].ks = Append(Append(GPop(g.ks), [k |-> "fin", saved |-> g.comp]), SeqF(f.fin)), ![c].comp = Norm])
        ELSE IF f.k = "inlf" /\ g.comp.t = "ret" THEN
           \* (specification-only) the in-place sub-body returned: that is the value of the yield from
-          GoLog([G EXCEPT ![c].ks = GPop(g.ks), ![c].comp = Norm], Ev("yf", g.comp.v))
+          [s EXCEPT !.gens = [G EXCEPT ![c].ks = GPop(g.ks), ![c].comp = AfterYFComp(g.comp.v, f.then)],
+                    !.log = AfterYFLog(s.log, g.comp.v, f.then)]
        ELSE Go([G EXCEPT ![c].ks = GPop(g.ks)])
     ELSE IF f.k = "seq" /\ f.ss = <<>> THEN Go([G EXCEPT ![c].ks = GPop(g.ks)])
     ELSE IF f.k = "loop" THEN
@@ -130,7 +152,8 @@ StepF(s) ==
     ELSE IF f.k = "fin" THEN
        \* the finally block completed normally: the saved completion continues
        Go([G EXCEPT ![c].ks = GPop(g.ks), ![c].comp = f.saved])
-    ELSE IF f.k = "inlf" THEN GoLog([G EXCEPT ![c].ks = GPop(g.ks)], Ev("yf", NoneV))
+    ELSE IF f.k = "inlf" THEN [s EXCEPT !.gens = [G EXCEPT ![c].ks = GPop(g.ks), ![c].comp = AfterYFComp(NoneV, f.then)],
+                                        !.log = AfterYFLog(s.log, NoneV, f.then)]
     ELSE IF f.k = "resume" THEN
        \* the generator was suspended at a yield and has now been resumed with g.inbox
        IF f.recv THEN GoLog([G EXCEPT ![c].ks = GPop(g.ks)], Ev("r", g.inbox)) ELSE Go([G EXCEPT ![c].ks = GPop(g.ks)])
@@ -148,10 +171,11 @@ StepF(s) ==
        [] x.k = "loop"  -> Go([G EXCEPT ![c].ks = Append(rest, [k |-> "loop", body |-> x.body, i |-> x.n])])
        [] x.k = "tryf"  -> Go([G EXCEPT ![c].ks = Append(Append(rest, [k |-> "tryf", fin |-> x.fin]), SeqF(x.body))])
        [] x.k = "ret"   -> Go([G EXCEPT ![c].ks = rest, ![c].comp = [t |-> "ret", v |-> IntV(x.v)]])
+       [] x.k = "retv"  -> Go([G EXCEPT ![c].ks = rest, ![c].comp = [t |-> "ret", v |-> x.val]])
        [] x.k = "raise" -> Go([G EXCEPT ![c].ks = rest, ![c].comp = [t |-> "exc", v |-> StrV("KeyError")]])
        [] x.k = "yf"    -> \* create the child; it is started with next(), whatever was sent to the parent before
-                           Go(Append([G EXCEPT ![c].ks = rest, ![c].sub = Len(G) + 1], [NewGen(x.b) EXCEPT !.st = "running", !.par = c]))
-       [] x.k = "inl"   -> Go([G EXCEPT ![c].ks = Append(Append(rest, [k |-> "inlf"]), SeqF(x.body))])
+                           Go(Append([G EXCEPT ![c].ks = rest, ![c].sub = Len(G) + 1, ![c].ythen = x.then], [NewGen(x.b) EXCEPT !.st = "running", !.par = c]))
+       [] x.k = "inl"   -> Go([G EXCEPT ![c].ks = Append(Append(rest, [k |-> "inlf", then |-> x.then]), SeqF(x.body))])
 
 \* run the started call to its end (suspension, return or exception); MaxMicro bounds the number of small steps
 RunF(s) == FoldLeft(LAMBDA acc, i : IF acc.active = 0 THEN acc ELSE StepF(acc), s, [i \in 1..MaxMicro |-> i])
